@@ -154,6 +154,7 @@ def run_check(pid, tier, seed):
     nt_all = set()
     samples = []
     stream_stats = []
+    ref_cov = [0, 0, 0]
     mismatches_total = 0
     known_hit = {}
     if rvh:
@@ -212,6 +213,11 @@ def run_check(pid, tier, seed):
             stream_stats.append({"stream": st.name, "role": st.role, "cases": n, "nontrivial_distinct": len(nt),
                                  "mismatches": len(mism), "exhaustive": st.exhaustive, "rule": st.rule,
                                  "wall_s": round(time.time() - ts, 2)})
+            if st.role not in ("pycheck",):
+                rc = rvlib.refcov(work, st.name + ".model")
+                if rc[1]:
+                    stream_stats[-1]["reference_fs"] = {"calls": rc[1], "covered_by_reference": rc[0], "disagreements": rc[2]}
+                    ref_cov[0] += rc[0]; ref_cov[1] += rc[1]; ref_cov[2] += rc[2]
             mismatches_total += len(mism)
             # classify
             kq = {}
@@ -263,6 +269,10 @@ def run_check(pid, tier, seed):
     cov.update({"evaluations": evaluations, "distinct_nontrivial": distinct_nt,
                 "rule": P.get("rule", ""), "samples": samples[:12], "streams": stream_stats,
                 "traces_validated_against_impl": evaluations, "mismatches": mismatches_total})
+    if rvh and ref_cov[1]:
+        cov["reference_fs"] = {"calls_in_compared_histories": ref_cov[1], "covered_by_reference": ref_cov[0], "disagreements_with_mirror": ref_cov[2],
+                               "note": "the reference tree filesystem (Memfs/Spec.v, RefineHistory.v spec_step) run beside the mirror on its own tree; a call it does not "
+                                       "cover (copy, listings, entries, symbolic or partial chmod, follow) re-reads the tree from the mirror's state"}
 
     # ---- 3. report
     kf = load_known_findings()
